@@ -1140,6 +1140,48 @@ fn main() {
         replay_main(&args);
         return;
     }
+    if cmd == "escalate" {
+        // run escalate --in programs.ndjson --out trace.ndjson : every given {prog, env, flags} is recorded as the
+        // variants of ALL relational profiles, so that TraceRun.tla decides the relations on the observed outcomes
+        let mut out = Out::create(&arg(&args, "--out").unwrap_or("-".into()));
+        let progs = read_ndjson(&arg(&args, "--in").unwrap());
+        let mut line = 0usize;
+        let mut r = Rng::new(7);
+        for (i, c) in progs.iter().enumerate() {
+            let case = i as u64;
+            let (prog, env) = (&c["prog"], &c["env"]);
+            let f0 = json_flags(&c["flags"]);
+            let strict = 0x0002 | 0x0001 | 0x0010 | 0x0200 | 0x0040 | 0x0004;
+            let f = f0 & !(0x0020 | 0x0008);
+            let base = run_one(&mut out, case, prog, env, &Cfg::new("base", "chia", f, 0), &mut line);
+            if base.get("skip").is_some() { continue; }
+            let c0 = if base["ok"] == json!(true) { le_n(&base["cost"]) as u64 } else { 1 + r.below(3000) };
+            let mut budgets = vec![c0, c0.saturating_sub(1).max(1), c0.saturating_add(1), c0.saturating_mul(2).saturating_add(7), 1];
+            budgets.sort();
+            budgets.dedup();
+            let mut prev_ok: Option<String> = None;
+            for (k, m) in budgets.iter().enumerate() {
+                let name = format!("b{k}");
+                let mut cfg = Cfg::new(&name, "chia", f, *m).rel("budget", "base");
+                if let Some(p) = &prev_ok { cfg = cfg.rel("budget_up", p); }
+                let e = run_one(&mut out, case, prog, env, &cfg, &mut line);
+                if e["ok"] == json!(true) && prev_ok.is_none() { prev_ok = Some(name); }
+            }
+            run_one(&mut out, case, prog, env, &Cfg::new("gc", "chia", f | 0x0020, 0).rel("eq_full", "base"), &mut line);
+            run_one(&mut out, case, prog, env, &Cfg::new("restricted", "chia", f | strict, 0).rel("ok_implies_ok_same", "base"), &mut line);
+            run_one(&mut out, case, prog, env, &Cfg::new("relaxed", "chia", f | 0x0008, 0).rel("other_ok_implies_ok_same", "base"), &mut line);
+            let fa = f & !(0x2000 | strict);
+            run_one(&mut out, case, prog, env, &Cfg::new("aware", "chia", fa, 0), &mut line);
+            run_one(&mut out, case, prog, env, &Cfg::new("unaware", "unaware", fa, 0).rel("other_ok_implies_ok_same_counters", "aware"), &mut line);
+            run_one(&mut out, case, prog, env, &Cfg::new("old", "chia", f & !0x2000, 0), &mut line);
+            run_one(&mut out, case, prog, env, &Cfg::new("new", "chia", f | 0x2000, 0).rel("both_ok_same_val", "old"), &mut line);
+            let f30 = f & !0x0200;
+            run_one(&mut out, case, prog, env, &Cfg::new("chia", "chia", f30, 0), &mut line);
+            run_one(&mut out, case, prog, env, &Cfg::new("runtime", "runtime", f30, 0).rel("eq_outcome_c30", "chia"), &mut line);
+        }
+        out.flush();
+        return;
+    }
     if cmd != "record" {
         eprintln!("usage: run record --profile P --seed S --n N --out F | run replay --in cases.ndjson --out mism.ndjson");
         std::process::exit(2);
